@@ -364,6 +364,8 @@ class ExprMixin:
                 continue
             parts = []
             for i, op in enumerate(n.ops):
+                if isinstance(op, (ast.In, ast.NotIn)):
+                    self.emit(s, fx, "MEMBER", n, item=ts[i], container=ts[i + 1])
                 parts.append(self.cmp_term(CMP[type(op)], ts[i], ts[i + 1]))
             yield "ok", (parts[0] if len(parts) == 1 else ("boolop", "And", tuple(parts))), s
 
@@ -399,22 +401,30 @@ class ExprMixin:
         return None
 
     def e_IfExp(self, n, st, fx):
-        for r, pol, s in self.branch(n.test, st, fx, record=False):
+        for r, t, s in self.ev(n.test, st, fx):
             if r == "raise":
-                yield r, pol, s
+                yield r, t, s
                 continue
-            if pol is None:
-                for r1, a, s1 in self.ev(n.body, s, fx):
-                    if r1 == "raise":
-                        yield r1, a, s1
-                        continue
-                    for r2, b, s2 in self.ev(n.orelse, s1, fx):
-                        if r2 == "raise":
-                            yield r2, b, s2
-                        else:
-                            yield "ok", ("ifexp", a, b), s2
-            else:
-                yield from self.ev(n.body if pol else n.orelse, s, fx)
+            k = self.truth(t, s)
+            if k is not None:
+                yield from self.ev(n.body if k else n.orelse, s, fx)
+                continue
+            # undecidable test: both arms are evaluated, each under its own branch condition (no path fork)
+            saved = s.conds
+            text = ast.unparse(n.test)
+            s.conds = saved + (Cond(t, True, fx.func.file, n.lineno, text),)
+            for r1, a, s1 in self.ev(n.body, s, fx):
+                if r1 == "raise":
+                    s1.conds = saved
+                    yield r1, a, s1
+                    continue
+                s1.conds = saved + (Cond(t, False, fx.func.file, n.lineno, text),)
+                for r2, b, s2 in self.ev(n.orelse, s1, fx):
+                    s2.conds = saved
+                    if r2 == "raise":
+                        yield r2, b, s2
+                    else:
+                        yield "ok", ("ifexp", a, b), s2
 
     def e_Tuple(self, n, st, fx):
         for r, ts, s in self.ev_list(n.elts, st, fx):
@@ -433,8 +443,47 @@ class ExprMixin:
     def e_Dict(self, n, st, fx):
         yield "ok", ("dictlit", st.uid()), st
 
+    def _comprehension(self, n, elts, st, fx):
+        """Comprehensions and generator expressions: iterables and element expressions are evaluated once for their events
+        (registry reads, membership tests); the result is opaque."""
+        saved = dict(st.env)
+
+        def gens(i, s):
+            if i == len(n.generators):
+                yield from self.ev_list(list(elts), s, fx)
+                return
+            g = n.generators[i]
+            for r, it, s1 in self.ev(g.iter, s, fx):
+                if r == "raise":
+                    yield r, it, s1
+                    continue
+                for _ in self.assign(g.target, ("iterof", it), s1, fx, n):
+                    pass
+                for r2, conds, s2 in self.ev_list(list(g.ifs), s1, fx):
+                    if r2 == "raise":
+                        yield r2, conds, s2
+                    else:
+                        yield from gens(i + 1, s2)
+        for r, ts, s in gens(0, st):
+            for k in list(s.env):
+                if k not in saved:
+                    del s.env[k]
+            if r == "raise":
+                yield r, ts, s
+            else:
+                yield "ok", ("comp", type(n).__name__, tuple(ts)), s
+
     def e_ListComp(self, n, st, fx):
-        yield "ok", ("unk", "listcomp"), st
+        yield from self._comprehension(n, [n.elt], st, fx)
+
+    def e_SetComp(self, n, st, fx):
+        yield from self._comprehension(n, [n.elt], st, fx)
+
+    def e_GeneratorExp(self, n, st, fx):
+        yield from self._comprehension(n, [n.elt], st, fx)
+
+    def e_DictComp(self, n, st, fx):
+        yield from self._comprehension(n, [n.key, n.value], st, fx)
 
     def e_Lambda(self, n, st, fx):
         yield "ok", ("unk", "lambda"), st
